@@ -1118,7 +1118,8 @@ def replay_of(d):
     w = d['witness']
     return {'driver': 'replay/c07_replay.py run', 'sequences': [w['sequence']], 'backend': d['backend'], 'kind': d['kind'],
             'diverging_step': w.get('op') or w.get('read'), 'contract_says': w['expected'], 'real_code_says': w['observed'],
-            'leaking_call': w.get('leaking_call'), 'runs_with_this_signature': d['count']}
+            'leaking_call': w.get('leaking_call'), 'runs_with_this_signature': d['count'],
+            'calls_before_the_divergence': [op[1] if op[0] == 'raw' else op[0] for op in w['sequence'][:w.get('step', 0)]]}
 
 
 # ------------------------------------------------------------------------------------------ main
